@@ -39,7 +39,8 @@ def check(case, rec):
     dense = Q.dense_dims(case)
     N = case["N"]
     commons = [d["common"] for d in case["dims"]]
-    idxs = [Q.build_index(a, c, readonly=case.get("readonly", False)) for a, c in zip(dense, commons)]
+    idxs = [Q.build_index(a, c, readonly=case.get("readonly", False), reverse=bool(case.get("reverse")))
+            for a, c in zip(dense, commons)]
     shape_arg, _ = Q.cube_shape(case, dense)
     cols = [a.tolist() for a in dense]
     uncommon = [sorted(set(c) - {k}) for c, k in zip(cols, commons)]
